@@ -51,7 +51,7 @@ BACKENDS = C.BACKENDS_ALL
 
 def gen_cases(tier, seed, shard, nshards):
     rnd = random.Random('c12-%d-%d' % (seed, shard))
-    plan = C.backend_plan(9000 if tier == 'quick' else 250000, BACKENDS)
+    plan = C.backend_plan(18000 if tier == 'quick' else 250000, BACKENDS)
     # the small deciding strata come first: a budget cut on a loaded machine must not starve them
     # ---- flush() while load() is still streaming: only the listing is gated (between two entries), so that the
     # set of messages certainly waiting at flush time is known although the harness holds something back
